@@ -142,8 +142,8 @@ def run(ctx):
                 for cmp_ in ast.walk(st.test):
                     if isinstance(cmp_, ast.Compare) and len(cmp_.ops) == 1 and isinstance(cmp_.ops[0], (ast.Gt, ast.GtE)) \
                             and is_length_expr(cmp_.comparators[0]):
-                        if "shape" in ast.unparse(cmp_.left) or "len(" in ast.unparse(cmp_.left):
-                            continue  # a length compared with a length
+                        if "shape" in ast.unparse(cmp_.left) or "len(" in ast.unparse(cmp_.left) or ast.unparse(cmp_.left) in ("k", "self._k"):
+                            continue  # a length compared with a length (k is the k-mer length, not a code)
                         n_g += 1
                         ctx.ob("R2.range-guard-polarity", rel, qual, cmp_, isinstance(cmp_.ops[0], ast.GtE),
                                f"`{ast.unparse(cmp_)}` accepts a code equal to the alphabet length (valid codes "
